@@ -399,7 +399,9 @@ def continuity_check(chunk_iter):
 
         last_end = chunk.end
         last_runid = chunk.run_id
-        last_subrun = chunk.last_subrun
+        if chunk.is_superrun:
+            # Zero-duration chunks of a superrun carry no subruns (empty runs are popped out)
+            last_subrun = chunk.last_subrun
 
 
 @export
